@@ -52,10 +52,18 @@ def run_property(pid, tier, replay=None):
         frames = traceback.extract_tb(e.__traceback__)
         lib = os.path.join(os.path.realpath(common.REPO), "spatialmath") + os.sep
         inlib = [f for f in frames if os.path.realpath(f.filename).startswith(lib)]
-        if inlib:
+        # ... and an arithmetic / indexing / attribute error in the replay code itself means that a value the library
+        # returned does not have the form it has on that tree (wrong shape, None, another type): the replay cannot go
+        # on, which is reported as a violation too.  Operating-system, memory, import and tool errors are not.
+        import subprocess
+        environmental = isinstance(e, (OSError, MemoryError, ImportError, subprocess.SubprocessError, json.JSONDecodeError,
+                                       RecursionError, AssertionError))
+        if inlib or not environmental:
             import hashlib
-            site = "%s.%s" % (os.path.basename(inlib[-1].filename)[:-3], inlib[-1].name)
-            key = "%s|%s|unguarded-call-of-the-replay|raised-%s" % (pid, site.replace("|", "_").replace(" ", "_"), type(e).__name__)
+            last = inlib[-1] if inlib else frames[-1]
+            site = "%s.%s" % (os.path.basename(last.filename)[:-3], last.name)
+            mode = "unguarded-call-of-the-replay" if inlib else "result-of-unexpected-form"
+            key = "%s|%s|%s|raised-%s" % (pid, site.replace("|", "_").replace(" ", "_"), mode, type(e).__name__)
             d = os.path.join(common.VERIF, "replays", pid)
             os.makedirs(d, exist_ok=True)
             path = os.path.join(d, "unguarded_%s.json" % hashlib.md5(key.encode()).hexdigest()[:12])
